@@ -51,6 +51,11 @@ def _rp_batch(vc, L, done):
     yield 'batch_has_no_duplicate_key', b_not(B.dup)
     yield 'batch_rows_are_rows_of_the_pack_with_their_ids', Forall(lambda k: implies(B.keys.has(k), b_and(
         T.has(k), T.col('pack_id', k) == pid, B.table.col('id', k) == T.col('id', k))))
+    mode = getattr(vc.ghost['$args'].compress_mode, 'name', None)
+    if mode in ('KEEP', 'YES', 'NO'):
+        # C10: the stored form of every copied object is the one the requested mode asks for
+        want = (lambda k: T.col('compressed', k)) if mode == 'KEEP' else (lambda k: SBool.of(mode == 'YES'))
+        yield 'copied_rows_have_the_compression_the_mode_asks_for', Forall(lambda k: implies(B.keys.has(k), B.table.col('compressed', k) == want(k)))
     yield 'batch_rows_point_into_the_temporary_pack', Forall(lambda k: implies(B.keys.has(k), b_and(
         B.table.col('pack_id', k) == REPACK, B.table.col('offset', k) >= 0, B.table.col('length', k) >= 0,
         B.table.col('offset', k) + B.table.col('length', k) <= loglen, B.table.col('size', k) == T.col('size', k))))
@@ -133,7 +138,7 @@ def _rp_loop_copy_inv(vc, L):
 
 class RepackPack(CUnit):
     fn = 'container:Container.repack_pack'
-    props = ('C05', 'C11', 'C17', 'C02')
+    props = ('C05', 'C11', 'C17', 'C02', 'C10')
     allowed_exc = ('AssertionError',)
     timeout_ms = 8000
     parallel = True
@@ -213,6 +218,13 @@ def rp_hook(I, tag, payload):
         vc.check('commit:same_keys', Forall(lambda k: after.has(k) == before.has(k)))
         vc.check('commit:every_changed_row_points_into_flushed_and_synced_bytes_of_an_existing_pack',
                  Forall(lambda k: implies(b_and(after.has(k), b_not(after.same_row(before, k))), in_file(k))))
+        mode = getattr(vc.ghost['$args'].compress_mode, 'name', None)
+        if mode in ('KEEP', 'YES', 'NO'):
+            pid = vc.ghost['$pack_int']
+            want = (lambda k: before.col('compressed', k)) if mode == 'KEEP' else (lambda k: SBool.of(mode == 'YES'))
+            vc.check('commit:repacked_rows_have_the_compression_the_mode_asks_for',
+                     Forall(lambda k: implies(b_and(after.has(k), before.col('pack_id', k) == pid, after.col('pack_id', k) == REPACK),
+                                              after.col('compressed', k) == want(k))))
         vc.check('commit:no_write_handle_open_on_a_pack', SBool.of(all(f.what != 'file' or getattr(f, 'path', None) is None or True for f in w.open_fds)))
     elif tag == 'pre_link':
         vc.check('link:source_is_the_complete_temporary_pack', payload['ino'] != 0)
